@@ -2642,8 +2642,9 @@ static int32_t pstm_invmod_slow(psPool_t *pool, const pstm_int *a,
         goto LBL_X;
     }
 
-    /* 2. [modified] if x,y are both even then return an error! */
-    if (pstm_iseven(&x) == 1 && pstm_iseven(&y) == 1)
+    /* 2. [modified] if x,y are both even then return an error!
+       (pstm_iseven() is false for zero, which has no inverse either) */
+    if ((pstm_iszero(&x) == 1 || pstm_iseven(&x) == 1) && pstm_iseven(&y) == 1)
     {
         res = PS_FAILURE;
         goto LBL_Y;
@@ -2988,6 +2989,14 @@ top:
     while (D.sign == PSTM_NEG)
     {
         if ((res = pstm_add(&D, b, &D)) != PSTM_OKAY)
+        {
+            goto LBL_D;
+        }
+    }
+    /* too big (as in pstm_invmod_slow): reduce into [0, b) */
+    while (pstm_cmp_mag(&D, b) != PSTM_LT)
+    {
+        if ((res = pstm_sub(&D, b, &D)) != PSTM_OKAY)
         {
             goto LBL_D;
         }
